@@ -99,6 +99,16 @@ macro_rules! exact_cells {
         $cb!($group, b_xrr, $body, [R, R], 1, false);
         $cb!($group, w_xpp, $body, [P, P], 0, false);
         $cb!($group, b_xpp, $body, [P, P], 1, false);
+        $cb!($group, w_xpr, $body, [P, R], 0, false);
+        $cb!($group, b_xpr, $body, [P, R], 1, false);
+        $cb!($group, w_xrp, $body, [R, P], 0, false);
+        $cb!($group, b_xrp, $body, [R, P], 1, false);
+        $cb!($group, w_xrrb, $body, [R, R, B], 0, false);
+        $cb!($group, b_xrrb, $body, [R, R, B], 1, false);
+        $cb!($group, w_xppb, $body, [P, P, B], 0, false);
+        $cb!($group, b_xppb, $body, [P, P, B], 1, false);
+        $cb!($group, w_xppr, $body, [P, P, R], 0, false);
+        $cb!($group, b_xppr, $body, [P, P, R], 1, false);
         $cb!($group, w_xrq, $body, [R, Q], 0, false);
         $cb!($group, b_xrq, $body, [R, Q], 1, false);
     };
